@@ -40,12 +40,12 @@ def describe(tier):
                 'n in 0..%d, every ordered operand pair of such for + & | ^ ==, every shift 0..n+2, every k 0..n (+ n+1, n+2 refused), '
                 'every index, every slice with start/stop/step in {None,-9..9} (n<=5; boundary set for n 6..8 in quick); beyond: '
                 'n in 9..300 with values {0,1,2^k-1,2^k,2^k+1 : k<=n} and DRBG values; constructor without length for '
-                '2^k-1,2^k,2^k+1, k<=300; halving helpers for n 0..64. non-trivial = case whose model answer is not the zero/empty '
+                '2^k-1,2^k,2^k+1, k<=300; halving helpers for n 0..64; compositions: every unary operation applied to every first-level RESULT (of ~, <<, >>, higher, lower, halving, &, |, ^, +) for all operands of length 1..6. non-trivial = case whose model answer is not the zero/empty '
                 'vector' % full,
         'bounds': 'lengths 0..8 exhaustive, 9..300 boundary+DRBG values',
         'assumptions': ['and/or/xor of different lengths are right-aligned (zero-extended on the left) in the model',
                         'negative integer indices, __setitem__ and int right operands are outside the property (DESIGN 4/C18)'],
-        'must_be_nonzero': ['ctor-nolength', 'concat', 'slice', 'half'],
+        'must_be_nonzero': ['ctor-nolength', 'concat', 'slice', 'half', 'compose-first'],
     }
 
 
@@ -58,6 +58,8 @@ def units(tier, seed):
     step = 24 if tier == 'quick' else 8
     for lo in range(9, 301, step):
         us.append(('wide-%d' % lo, {'kind': 'wide', 'lo': lo, 'hi': min(lo + step, 301), 'dense': tier != 'quick'}))
+    for n in range(1, 7):
+        us.append(('compose-n%d' % n, {'kind': 'compose', 'n': n}))
     us.append(('nolength', {'kind': 'nolength', 'kmax': 300}))
     us.append(('half', {'kind': 'half', 'nmax': 64}))
     return us
@@ -221,6 +223,66 @@ def run_unit(p, tier, seed):
                     ck.callsame('eq', c, lambda: a == b, m1 == m2)
                     ck.callsame('ne', c, lambda: a != b, m1 != m2)
         r.sample({'op': '+ & | ^ == !=', 'n1': n1, 'second operand': 'every value of every length 0..8'})
+    elif kind == 'compose':
+        # operations applied to the RESULTS of other operations (not to freshly constructed values): every first-level
+        # result of every operator on every operand (pair) of length n, then every unary operation on it
+        n = p['n']
+        vals = range(1 << n)
+        firsts = []          # (description, Bitset result, model bits)
+        for v1 in vals:
+            a = Bitset(v1, n)
+            m1 = bits(v1, n)
+            firsts.append((('~', v1), ~a, [1 - x for x in m1]))
+            for k in range(0, n + 1):
+                firsts.append((('<<', v1, k), a << k, m_shl(m1, k)))
+                firsts.append((('>>', v1, k), a >> k, m_shr(m1, k)))
+                firsts.append((('higher', v1, k), a.get_higher_bits(k), m1[:k]))
+                firsts.append((('lower', v1, k), a.get_lower_bits(k), m1[n - k:]))
+            hl = (n + 1) // 2
+            L, R = half_bits(a)
+            firsts.append((('half-left', v1), L, m_ext(m1[:n - hl], hl)))
+            firsts.append((('half-right', v1), R, m1[n - hl:]))
+            L2, R2 = half_bits_not_padding(a)
+            firsts.append((('half-nopad-left', v1), L2, m1[:n - hl]))
+            for v2 in vals:
+                if n > 4 and (v2 * 7 + v1) % 3:
+                    continue
+                b = Bitset(v2, n)
+                m2 = bits(v2, n)
+                firsts.append((('&', v1, v2), a & b, [x & y for x, y in zip(m1, m2)]))
+                firsts.append((('|', v1, v2), a | b, [x | y for x, y in zip(m1, m2)]))
+                firsts.append((('^', v1, v2), a ^ b, [x ^ y for x, y in zip(m1, m2)]))
+                firsts.append((('+', v1, v2), a + b, m1 + m2))
+        for desc, x, m in firsts:
+            w = len(m)
+            c = {'compose': [str(t) for t in desc], 'n': n}
+            core.note_case(c)
+            r['states'] += 1
+            ck.eq('compose-first', c, x, m)
+            ck.call('compose-invert', c, lambda: ~x, [1 - t for t in m])
+            for k in sorted(t for t in {0, 1, w // 2, w} if t <= w):
+                ck.call('compose-lshift', dict(c, k=k), lambda: x << k, m_shl(m, k))
+                ck.call('compose-rshift', dict(c, k=k), lambda: x >> k, m_shr(m, k))
+                ck.call('compose-higher', dict(c, k=k), lambda: x.get_higher_bits(k), m[:k])
+                ck.call('compose-lower', dict(c, k=k), lambda: x.get_lower_bits(k), m[w - k:])
+            other = Bitset(val(m) ^ ((1 << w) - 1 if w else 0), w) if w else Bitset(0, 0)
+            mo = [1 - t for t in m]
+            ck.call('compose-and', c, lambda: x & other, [p_ & q_ for p_, q_ in zip(m, mo)])
+            ck.call('compose-xor', c, lambda: x ^ other, [p_ ^ q_ for p_, q_ in zip(m, mo)])
+            ck.call('compose-concat', c, lambda: x + x, m + m)
+            ck.callsame('compose-str', c, lambda: str(x), ''.join(map(str, m)))
+            ck.callsame('compose-bytes', c, lambda: bytes(x), val(m).to_bytes((w + 7) // 8, 'big'))
+            ck.callsame('compose-eq', c, lambda: x == (Bitset(val(m), w) if w else Bitset(0, 0)), True)
+            ck.callsame('compose-iter', c, lambda: list(x), [bool(t) for t in m])
+            if w:
+                hl2 = (w + 1) // 2
+                try:
+                    A1, B1 = half_bits(x)
+                    ck.eq('compose-half-left', c, A1, m_ext(m[:w - hl2], hl2))
+                    ck.eq('compose-half-right', c, B1, m[w - hl2:])
+                except Exception as e:
+                    r.v(PROPERTY, 'bits_utils', 'compose-half', 'raises', c, 'two halves', core.exc_text(e))
+        r.sample({'op': 'operations on results of operations', 'n': n, 'first_level_results': len(firsts)})
     elif kind == 'wide':
         g = det.rng(seed, 'c18-wide', p['lo'])
         for n in range(p['lo'], p['hi']):
@@ -343,6 +405,8 @@ def replay(case, seed):
     from toolkit.bits_utils import half_bits, half_bits_not_padding
     r = core.Result()
     ck = Ck(r)
+    if 'compose' in case:
+        return run_unit({'kind': 'compose', 'n': case['n']}, 'quick', seed)['violations']
     if 'v_is' in case:
         return run_unit({'kind': 'nolength', 'kmax': 300}, 'quick', seed)['violations']
     if 'n1' in case:
